@@ -645,17 +645,42 @@ func c17Run(w *vWriter, e *c17Env, in c17Input) {
 					v = verdict{fmt.Sprintf("%s: refused request changed the database: %v -> %v", what, o.before, o.after), "C17:refused-request-wrote"}
 				}
 			} else if len(o.kinds) == len(nonEmpty) {
-				want := o.before
+				// E: the text ran as a write, all of it.  Err: it was not treated as read-only either, and an
+				// error in the middle of a multi-statement text leaves what its earlier statements did.
+				cands := [][]c17Row{o.before}
 				allRO := true
 				for i, t := range nonEmpty {
-					if o.kinds[i] == "E" {
+					switch o.kinds[i] {
+					case "E":
 						allRO = false
-						for _, s := range t.Subs {
-							want = c17Apply(want, s.Ops)
+						for ci := range cands {
+							for _, s := range t.Subs {
+								cands[ci] = c17Apply(cands[ci], s.Ops)
+							}
 						}
+					case "Err":
+						if len(t.Subs) > 0 {
+							allRO = false
+						}
+						var next [][]c17Row
+						for _, cnd := range cands {
+							next = append(next, cnd)
+							for _, s := range t.Subs {
+								cnd = c17Apply(cnd, s.Ops)
+								next = append(next, cnd)
+							}
+						}
+						cands = next
 					}
 				}
-				if !c17Eq(o.after, want) || (allRO && o.dv0 != o.dv1) {
+				want := cands[0]
+				okState := false
+				for _, cnd := range cands {
+					if c17Eq(o.after, cnd) {
+						okState = true
+					}
+				}
+				if !okState || (allRO && o.dv0 != o.dv1) {
 					sig := "C17:unified-ro-wrote"
 					if roHeadRwTail {
 						sig = "C17:unified-ro-head-rw-tail"
